@@ -157,7 +157,7 @@ def conditions(tier):
 
 
 META = {
-    "bounds": {"quick": "24 value shapes up to depth 2 / width 3 (lists, tuples 0/1/2, dicts, dataclass with default and default_factory, attrs, namedtuple, defaultdict, Enum, Flag, class, None, bool, str, bytes, float, set, frozenset, HasRepr) with symbolic int leaves; 5 operations; placements assert / helper argument / module level / loop; <=3 observations",
+    "bounds": {"quick": "28 value shapes (incl. pydantic models with Any-typed fields, one filled in place; a tuple holding a list that keeps growing) up to depth 2 / width 3 (lists, tuples 0/1/2, dicts, dataclass with default and default_factory, attrs, namedtuple, defaultdict, Enum, Flag, class, None, bool, str, bytes, float, set, frozenset, HasRepr) with symbolic int leaves; 5 operations; placements assert / helper argument / module level / loop; <=3 observations",
                "thorough": "all shapes x all placements; <=3 observations everywhere"},
     "outside": "unbounded size/nesting; str/bytes leaves as symbolic values (C12); externals (C13); pydantic models only with Any-typed fields (typed fields are validated in C code, which realises symbolic ints); layouts other than the templates'",
     "assumptions": ["stub: repr of a symbolic int leaf is a name token; concrete replays use real repr",
